@@ -100,9 +100,12 @@ __CPROVER_ensures(__CPROVER_return_value.has == (g_ndisp == 1))
 __CPROVER_ensures(self->m_marked_for_deletion == __CPROVER_return_value.has)                                /*@ob C05.removed-exactly-when-dispatched */
 __CPROVER_ensures(__CPROVER_return_value.has ==> (int)__CPROVER_return_value.v == g_ret)
 ;
-void pool_push_back_deferred(fsm_t* self, event_t ev, uint16_t seq_cnt)
+extern const _Bool g_redeferral;      /* the event being deferred is a pool occurrence that is being dispatched right now (deferred before, deferred again by an action) */
+extern const _Bool g_later_pending;   /* the pool holds pending occurrences that arrived after that occurrence */
+void pool_push_back_deferred(fsm_t* self, event_t ev, uint16_t seq_cnt)      /* events.push_back(...): the new occurrence goes behind everything pending */
 __CPROVER_requires(EV_EQ(ev, g_evt))                                             /*@ob C05,C18.deferred-occurrence-keeps-type-and-payload */
 __CPROVER_requires(g_dpushed == 0)                                               /*@ob C05.exactly-one-occurrence-stored */
+__CPROVER_requires(!(g_redeferral && g_later_pending))                           /*@ob C05.re-deferred-occurrence-does-not-go-behind-later-arrivals */
 __CPROVER_assigns(g_dpushed, g_stored_seq)
 __CPROVER_ensures(g_dpushed == 1 && g_stored_seq == seq_cnt)
 ;
